@@ -60,6 +60,8 @@ _text_alpha = st.one_of(
     st.text(max_size=5),                                   # any unicode without surrogates
     st.sampled_from(["", "a", "A", "é", "z", "zz", "ab", "ÿ", "Ā", "\U0001f600", "ÿ", "Z", "aa",
                      "1", "02", "0.7", "1e5", "True", "nan", "None", "NULL", "2020-01-01"]),
+    # long values sharing a long prefix (URLs, paths): bounds that differ only beyond 64 bytes
+    st.sampled_from(["p" * 70 + "a", "p" * 70 + "b", "p" * 70, "p" * 64, "p" * 63 + "q", "é" * 40 + "z", "é" * 40]),
 )
 
 
